@@ -78,7 +78,8 @@ class Creators:
 
   def __add_line_unknown_version(self, gfa_line):
     if isinstance(gfa_line, str):
-      rt = gfa_line[0]
+      # the record type is the first field (comments: the first character)
+      rt = "#" if gfa_line[:1] == "#" else gfa_line.split("\t")[0]
     elif isinstance(gfa_line, gfapy.Line):
       rt = gfa_line.record_type
     else:
